@@ -56,3 +56,13 @@ chk("C04",
     "reduce_pit / copy-back index arithmetic is covered end-to-end by the pruned-net oracle, not proved.",
     "Lean 4 proof (BFS = reachability, renumbering) over an executable model; exhaustive-pattern correspondence; pruned-net search",
     "8/C04")
+chk("C03",
+    "Lean theorems: in the assembled Newton system the rows of pressure-fixing nodes, of paired pressure-controlled nodes and of "
+    "prescribed-flow branches are identities with zero right-hand side, so the prescribed pressure / controlled pressure / set "
+    "mass flow written at initialisation survives every iteration for any step width (any topology, any controller order: the "
+    "k-th-branch/k-th-node pairing is total when the counts agree); folding set_fixed_node_entries over any grouping of "
+    "fixing elements yields their arithmetic mean; a vanishing residual of the generated liquid and gas kernels with the "
+    "compressor lift rule gives p_to,abs = ratio * p_from,abs (+ hydrostatic term), zero lift for reverse flow. Ties: exact "
+    "assembly correspondence, set_fixed_node_entries correspondence. Oracle: every set-point clause on res_* tables.",
+    "Pump curve and circulation-pump lift are checked by the oracle only; compressor lift rule is hand-modelled.",
+    "Lean 4 proof over assembly model + generated kernels; correspondence; set-point oracle search", "8/C03")
